@@ -664,6 +664,52 @@ def work_line_bytes(shard):
     return part
 
 
+# ---------------------------------------------------------------------------
+# WRITE# of computed strings: every item is a temporary that is gone when the next one is computed
+
+WX_SETUP = b'N$="abcdef":M$="uvwxyz":A%=7'
+WX_ITEMS = [(b'CHR$(65)', b'A'), (b'CHR$(66)', b'B'), (b'MID$(N$,2,3)', b'bcd'), (b'MID$(M$,2,3)', b'vwx'), (b'N$', b'abcdef'),
+            (b'LEFT$(N$,2)', b'ab'), (b'RIGHT$(M$,2)', b'yz'), (b'HEX$(255)', b'FF'), (b'HEX$(171)', b'AB'),
+            (b'N$+M$', b'abcdefuvwxyz'), (b'M$+N$', b'uvwxyzabcdef'), (b'"AB"', b'AB'), (b'"CD"', b'CD'),
+            (b'STRING$(3,"p")', b'ppp'), (b'SPACE$(3)', b'   '), (b'LEFT$(N$,0)', b'')]
+
+
+def work_write_exprs(shard):
+    part = Partial()
+    sl, tuples = shard
+    w = Worker(sl)
+    try:
+        for idxs in tuples:
+            items = [WX_ITEMS[i] for i in idxs]
+            for mode in ('direct', 'program'):
+                case = {'exprs': list(idxs), 'mode': mode, 'sl': sl}
+                w.reset()
+                stmt = b'WRITE#1,' + b','.join(e for e, _v in items)
+                if mode == 'program':
+                    # (storing a line clears the variables: the line goes in first)
+                    w.must(b'10 ' + stmt + b':END')
+                w.must(WX_SETUP)
+                w.must(b'OPEN "%s" FOR OUTPUT AS 1' % FNAME.encode())
+                r = w.run(stmt if mode == 'direct' else b'GOTO 10')
+                part.n += 1
+                part.traces += 1
+                if r.exc is not None or r.err is not None:
+                    _viol(part, w, 'write-exprs/error', '%r: %r' % (stmt, r), case)
+                    continue
+                w.must(b'CLOSE 1')
+                host = w.host()
+                want = b','.join(b'"' + v + b'"' for _e, v in items) + b'\r\n\x1a'
+                if host != want:
+                    _viol(part, w, 'write-exprs/wrong-text/%s' % mode, '%r wrote %r, expected %r' % (stmt, host, want), case)
+                if mode == 'program':
+                    w.must(b'NEW')
+                part.classes.add('write-exprs/%s/%s' % (mode, 'same-length' if len(set(len(v) for _e, v in items)) < len(items) else 'different-lengths'))
+    finally:
+        w.done()
+    part.sample({'exprs': list(shard[1][0])})
+    return part
+
+
 def _seqs(n, maxlen):
     for k in range(maxlen + 1):
         for idxs in product(range(n), repeat=k):
@@ -703,6 +749,12 @@ def legs(ctx):
                          'pairs of such strings, written by one WRITE# (items ending at every offset around each multiple '
                          'of 256 characters on the line), x soft_linefeed off/on' % (
                              len(ccases) * 2, COL_LENGTHS[0], COL_LENGTHS[-1])))
+    xt = [t for k in (2, 3) for t in product(range(len(WX_ITEMS)), repeat=k)] if not ctx.quick else \
+        [t for t in product(range(len(WX_ITEMS)), repeat=2)] + [(a, 4, b) for a in range(len(WX_ITEMS)) for b in range(len(WX_ITEMS))]
+    out.append(Leg('write-exprs', [(False, ch) for ch in chunked(xt, 64)], work_write_exprs, exhaustive=True,
+                   bound='all %d records of 2%s computed string items over %d expressions (CHR$, MID$, LEFT$, RIGHT$, HEX$, concatenations, '
+                         'literals, STRING$, SPACE$, an empty one; many of equal length), written by one WRITE# typed directly and from a '
+                         'program line: the text in the file' % (len(xt), '..3' if not ctx.quick else ' (and 3 with a variable in the middle)', len(WX_ITEMS))))
     dcases = [(idxs, 'one', (len(idxs),)) for idxs in _seqs(len(ITEMS), 2) if idxs]
     out.append(Leg('input-deftype', [(False, ch, 'deftype') for ch in chunked(dcases, 60)], work_write_input, exhaustive=True,
                    bound='all %d records of 1..2 items over the %d items, read back with INPUT# into variables written without '
@@ -744,6 +796,10 @@ def replay(ctx, leg, case):
     sl = bool(case['sl'])
     w = Worker(sl)
     try:
+        if 'exprs' in case:
+            part = work_write_exprs((sl, [tuple(case['exprs'])]))
+            part.viol = [v for v in part.viol if v[2].get('mode') == case.get('mode')]
+            return part
         if 'units' in case:
             run_mixed(part, w, [MIX_UNITS[i] for i in case['units']], case)
             return part
